@@ -582,6 +582,18 @@ def opConvValues (req : J) : J :=
                      ("n_v", DataIO.jot v.nV), ("illuminance", DataIO.jot v.illuminance)]))),
            ("tbs", J.arr ((ConvV.convTbs d.tbs).map (fun t =>
               J.obj [("name", DataIO.js t.name), ("kind", J.str t.kind.str), ("l", DataIO.jt t.l), ("psi", DataIO.jt t.psi)]))),
+           ("loads", J.arr (d.spaceCondBlocks.map (fun kb => match ConvV.convLoads kb.1 kb.2.attrs with
+              | some v => J.obj [("name", DataIO.js v.name), ("area_per_person", DataIO.jt v.areaPerPerson), ("people_sensible", DataIO.jt v.peopleSensible),
+                                 ("people_latent", DataIO.jt v.peopleLatent), ("equipment", DataIO.jt v.equipment), ("lighting", DataIO.jt v.lighting)]
+              | none => J.obj [("name", DataIO.js kb.1), ("rejected", J.bool true)]))),
+           ("wallcons", J.arr (d.wallcons.map (fun kc => let v := ConvV.convWallCons kc.2
+              J.obj [("name", DataIO.js kc.1), ("thickness", DataIO.jts v.thickness), ("absorptance", DataIO.jt v.absorptance)]))),
+           ("wincons", J.arr (d.wincons.map (fun kc => let v := ConvV.convWinCons kc.2
+              J.obj [("name", DataIO.js kc.1), ("f_f", DataIO.jt v.fF), ("delta_u", DataIO.jt v.deltaU), ("g_glshwi", DataIO.jot v.gGlshwi), ("c_100", DataIO.jt v.c100)]))),
+           ("glasses", J.arr (d.glasses.map (fun kc => let v := ConvV.convGlass kc.2
+              J.obj [("name", DataIO.js kc.1), ("u_value", DataIO.jt v.uValue), ("g_gln", DataIO.jt v.gGln)]))),
+           ("frames", J.arr (d.frames.map (fun kc => let v := ConvV.convFrame kc.2
+              J.obj [("name", DataIO.js kc.1), ("u_value", DataIO.jt v.uValue), ("absorptivity", DataIO.jt v.absorptivity)]))),
            ("windows", J.arr (d.windows.map (fun w =>
               let v := ConvV.convWindow w
               J.obj [("name", DataIO.js v.name), ("x", DataIO.jt v.x), ("y", DataIO.jt v.y), ("width", DataIO.jt v.width),
